@@ -2,13 +2,15 @@
   Bnum.Drive.C14 — float <-> integer casts.
     to_f32   cfg [dbg|rel] a     -> hex of the f32 bit pattern of `a as f32`   (a: hex W-bit pattern)
     to_f64   cfg [dbg|rel] a     -> hex of the f64 bit pattern
-    from_f32 cfg bits            -> hex pattern of `f32::from_bits(bits) as <cfg type>` (bits: hex)
-    from_f64 cfg bits            -> hex pattern of `f64::from_bits(bits) as <cfg type>`
-  The build mode only switches the `debug_assert!`s of `from_*_parts` (never firing); default `dbg`.
-  Model answer: Bnum.Model.Float on the value `U w a`; spec answer: Bnum.Spec.Float (exact integers).
+    from_f32 cfg [dbg|rel] bits  -> hex pattern of `f32::from_bits(bits) as <cfg type>` (bits: hex)
+    from_f64 cfg [dbg|rel] bits  -> hex pattern of `f64::from_bits(bits) as <cfg type>`
+  The build mode switches the `debug_assert!`s of `from_*_parts` and the strict / wrapping variants of
+  the unsuffixed `>>`, `<<`, `-` (none of which can fire: Lemmas/FloatD.lean); default `dbg`; `P` = panic.
+  Model answer: the DIGIT-LEVEL model Bnum.Model.FloatD (`FltD.*`) on the digit list; spec answer:
+  Bnum.Spec.Float (exact integers).
 -/
 import Bnum.Drive.Util
-import Bnum.Model.Float
+import Bnum.Model.FloatD
 import Bnum.Spec.Float
 namespace Bnum.Drive.C14
 open Bnum Bnum.Drive
@@ -18,20 +20,19 @@ private def sfmt (is64 : Bool) : Spec.Fmt := if is64 then Spec.f64 else Spec.f32
 
 private def toFloat (c : Cfg) (is64 dbg : Bool) (a : String) : Option (String × String) := do
   let x ← parseVal c a
-  let W := c.w * c.n
   let pat := U c.w x
-  let mo := if c.signed then Flt.floatFromBInt (mfmt is64) W dbg pat
-            else Flt.floatFromBUint (mfmt is64) W dbg pat
+  let mo := if c.signed then FltD.floatFromBInt (mfmt is64) dbg c.w x
+            else FltD.floatFromBUint (mfmt is64) dbg c.w x
   let z : Int := if c.signed then toInt (M c.w c.n) pat else (pat : Int)
   some (showOut toHex mo, toHex (Spec.intToFloat (sfmt is64) z))
 
-private def fromFloat (c : Cfg) (is64 : Bool) (b : String) : Option (String × String) := do
+private def fromFloat (c : Cfg) (is64 dbg : Bool) (b : String) : Option (String × String) := do
   let bits ← parseHex b
   let F := mfmt is64
   if bits ≥ 2 ^ F.bits then none else
-  let W := c.w * c.n
-  let mo := if c.signed then Flt.bintFromFloat F W bits else Flt.buintFromFloat F W bits
-  some (toHex mo, toHex (Spec.floatToInt (sfmt is64) c.signed (M c.w c.n) bits))
+  let mo := if c.signed then FltD.bintFromFloat F dbg c.w c.n bits
+            else FltD.buintFromFloat F dbg c.w c.n bits
+  some (showOut (showVal c) mo, toHex (Spec.floatToInt (sfmt is64) c.signed (M c.w c.n) bits))
 
 private def splitMode : List String → Bool × List String
   | "dbg" :: r => (true, r)
@@ -43,8 +44,8 @@ def handle : Handler := fun c op args =>
   match op, args with
   | "to_f32", [a] => toFloat c false dbg a
   | "to_f64", [a] => toFloat c true dbg a
-  | "from_f32", [b] => fromFloat c false b
-  | "from_f64", [b] => fromFloat c true b
+  | "from_f32", [b] => fromFloat c false dbg b
+  | "from_f64", [b] => fromFloat c true dbg b
   | _, _ => none
 
 end Bnum.Drive.C14
